@@ -1,6 +1,7 @@
 #!/usr/bin/env python3
 """resolve a merge conflict in known_findings.json: union of findings by id (ours wins on equal ids)"""
 import json, subprocess, sys
+OWN = set(sys.argv[1:])   # properties owned by the branch being merged: only their entries may overwrite ours
 ours = json.loads(subprocess.run(['git', 'show', ':2:known_findings.json'], capture_output=True, text=True).stdout)
 theirs = json.loads(subprocess.run(['git', 'show', ':3:known_findings.json'], capture_output=True, text=True).stdout)
 ids = {(f['property'], f['id']): i for i, f in enumerate(ours['findings'])}
@@ -9,7 +10,7 @@ for f in theirs['findings']:
     if (f['property'], f['id']) not in ids:
         ours['findings'].append(f)
         print('added', f['id'], f['status'])
-    elif f != ours['findings'][ids[(f['property'], f['id'])]] and f['property'] not in LEAD_OWNED:
+    elif f != ours['findings'][ids[(f['property'], f['id'])]] and f['property'] not in LEAD_OWNED and (not OWN or f['property'] in OWN):
         ours['findings'][ids[(f['property'], f['id'])]] = f          # the owning builder's later version wins
         print('updated', f['id'], f['status'])
 json.dump(ours, open('known_findings.json', 'w'), indent=1)
